@@ -277,6 +277,22 @@ class BinnerKeepingSums(Binner):
                 yield new_sums
 
 
+def _sorted(items) -> list:
+    """
+    The given items in their natural order; if they have no common order (e.g. item names that are strings and numbers), in the order of their repr.
+
+    >>> _sorted([3, 1, 2])
+    [1, 2, 3]
+    >>> _sorted(["b", 1, "a", 2])
+    ['a', 'b', 1, 2]
+    """
+    items = list(items)
+    try:
+        return sorted(items)
+    except TypeError:
+        return sorted(items, key=repr)
+
+
 class BinnerKeepingContents(BinnerKeepingSums):
     """
     A binner that creates bin-arrays that keep track of the entire contents of each bin.
@@ -433,10 +449,10 @@ class BinnerKeepingContents(BinnerKeepingSums):
             raise ValueError(f"Inputs should have the same number of bins, but they have {numbins} and {len(sums2)} bins.")
         for perm in itertools.permutations(range(numbins)):
             new_sums =  [sums1[perm[i]] + sums2[i] for i in range(numbins)]
-            new_lists = [sorted(lists1[perm[i]] + lists2[i]) for i in range(numbins)]  # sorting to avoid duplicates
+            new_lists = [_sorted(lists1[perm[i]] + lists2[i]) for i in range(numbins)]  # sorting to avoid duplicates
             new_bins = (new_sums, new_lists)
             self.sort_by_ascending_sum(new_bins)
-            new_lists_tuple = tuple(sorted(map(tuple,new_bins[1])))   # sorted: bins with equal sums may come in any order
+            new_lists_tuple = tuple(_sorted(map(tuple,new_bins[1])))   # sorted: bins with equal sums may come in any order
             if new_lists_tuple not in yielded:
                 yielded.add(new_lists_tuple)
                 yield new_bins
